@@ -5,6 +5,7 @@ delivery, latency, stall, late pickle and death.  Serves C11 C12 C18 and the mul
 from __future__ import annotations
 
 import os
+import pickle
 
 import copy
 from collections import Counter
@@ -168,6 +169,10 @@ def _run(ch: Choices, focus: str = "C11", params: Optional[dict] = None) -> dict
         plan["opcost"] = [0, 1, 2, 5][ch.choose(4, "opcost")] if template != "race" else [2, 1, 3, 5][ch.choose(4, "opcost")]
         if ch.chance(1, 4, "stall"):
             plan["stall"] = {ch.choose(nw, "stall.w"): ch.choose(3, "stall.at")}
+        if ch.chance(1, 3, "bystanders"):
+            # the calling process owns other living children (an unrelated Process / Pool worker, the blocked workers
+            # of an abandoned enumeration): whatever the parent asks the OS about "its children" sees them too
+            plan["bystanders"] = 1 + ch.choose(4, "bystanders.n")
     cache = {}
     listeners = {}
 
@@ -194,6 +199,7 @@ def _run(ch: Choices, focus: str = "C11", params: Optional[dict] = None) -> dict
         stream.steps = CLOCK.count - c0
         out["steps"] += stream.steps
 
+    pristine = [pickle.dumps(s_) for s_ in solvers]  # a parent may run a solver in the calling process and consume it
     parent = None
     with ch.scope("reuse"):
         if focus in ("C11", "C17") and ch.chance(1, 4, "second_call"):
@@ -212,6 +218,15 @@ def _run(ch: Choices, focus: str = "C11", params: Optional[dict] = None) -> dict
     for kf, vf in res["fired"].items():
         out["faults"][kf] += vf
     streams = res["streams"]
+    if len(streams) < nw and res["outcome"] == "returned" and focus != "C18":
+        # the parent did not start a process for every solver (e.g. it ran one in the calling process, which the
+        # property allows): what that worker would have reported is computed from a pristine copy of the solver
+        have = {st.w for st in streams}
+        for w in range(nw):
+            if w not in have:
+                streams.append(reference_stream(w, pristine[w], op, run_worker))
+                out["probes"]["solver_not_run_as_a_process"] += 1
+        streams.sort(key=lambda st: st.w)
     ctx = f"[{out['model']} parts={[sm['shr'][sdom] for sm in sub_models]} on d{sdom} op={op} cfgs={[(c['cons'], c['var_h'], c['dom_h']) for c in cfgs]} plan={plan_str(plan)}] "
     worker_failed = False
     for st in streams:
@@ -248,6 +263,22 @@ def _run(ch: Choices, focus: str = "C11", params: Optional[dict] = None) -> dict
         enumerate_faults(ch, solvers, op, plan, run_worker, cache, streams, viol, ctx, out, params)
     out["log_sha"] = sha([res["log"], [str(v) for v in V]])
     return finish(out, ch, None, model, nw, op, plan, order)
+
+
+def reference_stream(w, pickled_solver, op, run_worker):
+    """The message stream and final statistics of worker `w`, from a pristine copy of its solver (same code path as
+    SimProcess.start)."""
+    stream = mpsim.Stream(w)
+    clone = pickle.loads(pickled_solver)
+    rec = mpsim._Recorder(stream)
+    if op[0] == "solve":
+        run_worker(stream, clone, "solve_and_queue", (w, rec), {})
+    else:
+        run_worker(stream, clone, f"{op[0]}_and_queue", (op[1], w, rec), {})
+    stream.final_stats = np.array(clone.statistics, copy=True)
+    if stream.msgs:
+        stream.msgs[-1].stats_later = stream.final_stats
+    return stream
 
 
 def finish(out, ch, early, model=None, nw=0, op=None, plan=None, order=None):
@@ -426,7 +457,8 @@ def judge_fault_free(res, op, model, ref, streams, solvers, viol, ctx, out, use_
                 viol("C17", "mp-statistics-query-not-idempotent", msg)
                 break
         # per worker conservation laws (C17)
-        for st, solver in zip(streams, solvers):
+        for st in streams:
+            solver = solvers[st.w]
             L = st.listener
             if L is None:
                 continue
